@@ -133,6 +133,10 @@ func NewSink(path string) *Sink {
 	return &Sink{w: bufio.NewWriterSize(f, 1<<20), f: f}
 }
 func (s *Sink) Emit(c *Case) {
+	if lastFailure != "" { // what the implementation said when a run of this case failed (for the replay file; not compared)
+		c.Set("errnote", strings.ToValidUTF8(strings.NewReplacer("\t", " ", "\n", " ").Replace(lastFailure), "?"))
+		lastFailure = ""
+	}
 	s.w.WriteString(c.Line())
 	s.w.WriteByte('\n')
 	s.n++
